@@ -272,9 +272,10 @@ def moveFrom (oj : Obj) (typed : Bool) (value : Nat) : Obj :=
 def stepMove (s : State) (i j : Nat) (typed : Bool) (value : Nat) (oj : Obj) : State :=
   setObj (setObj s i (some (moveFrom oj typed value))) j (some { oj with cf := 0 })
 
-/-- `operator<<(suspend_point &&)`: every handle of the source is `add`ed, the source's block is freed, its
-`_count_flag` reset.  (The loop reads the source while adding to the target; for two distinct objects this is
-the same as reading the source first, because `add` never writes another object's storage.) -/
+/-- `operator<<(suspend_point &&)` for two distinct objects (`&other == this` returns at once, see `step`): every
+handle of the source is `add`ed, the source's block is freed, its `_count_flag` reset.  (The loop reads the source
+while adding to the target; for two distinct objects this is the same as reading the source first, because `add`
+never writes another object's storage — `AddSpec.mem_other` in the proofs.) -/
 def stepMerge (s : State) (i j : Nat) (oj : Obj) : State :=
   -- `delete[] other._ext._handles` if flagged, `other._count_flag = 0`: the same statements as `clear_internal()`
   clearInternal (addAll s i (handlesOf s oj)) j oj
